@@ -135,14 +135,8 @@ func runC13(c *an.Ctx) {
 		if fn == nil {
 			continue
 		}
-		bound := &an.Guard{Name: "shift count > MAX", FailValue: an.ATrue, MatchValue: func(v ssa.Value) bool {
-			b, ok := v.(*ssa.BinOp)
-			if !ok || b.Op != token.GTR {
-				return false
-			}
-			k, isK := b.Y.(*ssa.Const)
-			return isK && k.Value != nil && k.Value.String() == "256"
-		}}
+		// count > MAX_INT_SIZE*8, in any spelling
+		bound := relGuards("shift count > MAX", token.GTR, func(v ssa.Value) bool { _, isK := v.(*ssa.Const); return !isK }, isConstVal("256"))
 		isBigShift := func(in ssa.Instruction) bool {
 			k, ok := in.(*ssa.Call)
 			if !ok || k.Call.StaticCallee() == nil {
@@ -151,28 +145,23 @@ func runC13(c *an.Ctx) {
 			s := k.Call.StaticCallee().String()
 			return s == "(*math/big.Int).Lsh" || s == "(*math/big.Int).Rsh"
 		}
-		v := an.Guarded(c.P, fn, []*an.Guard{bound}, isBigShift, false)
+		v := an.Guarded(c.P, fn, bound, isBigShift, false)
 		c.Check(v.Holds && v.GuardSites == 1 && v.ActionSites == 1, "guard|IntValue."+n+"|shift-bound", "the shift count is bounded by MAX_INT_SIZE*8 before it is converted and applied (no huge allocation, no truncation)", c.P.Rel(fn.Pos()), v.Witness)
-		neg := &an.Guard{Name: "shift count < 0", FailValue: an.ATrue, MatchValue: func(v ssa.Value) bool {
-			b, ok := v.(*ssa.BinOp)
-			if !ok || b.Op != token.LSS {
-				return false
-			}
-			k, isK := b.Y.(*ssa.Const)
-			f := fieldOfLoad(b.X)
+		// the count is the second operand: other.integer < 0 (any spelling), also when the test sits in a private helper
+		neg := relGuards("shift count < 0", token.LSS, func(x ssa.Value) bool {
+			f := fieldOfLoad(x)
 			if f == nil {
-				if fl, isF := b.X.(*ssa.Field); isF {
+				if fl, isF := x.(*ssa.Field); isF {
 					f = an.FieldOf(fl)
 				}
 			}
-			// the count is the second operand: other.integer, also when the test sits in a private helper
-			return isK && k.Value != nil && k.Value.String() == "0" && f != nil && f.Name() == "integer" && an.AccessPathIn(fn, b.X) == fn.Params[1].Name()+".integer"
-		}}
+			return f != nil && f.Name() == "integer" && an.AccessPathIn(fn, x) == fn.Params[1].Name()+".integer"
+		}, isConstVal("0"))
 		isU64 := &an.Guard{Name: "bigint.IsUint64()", FailModes: [][]an.Abs{{an.AFalse}}, MatchCall: func(k ssa.CallInstruction) bool {
 			f := k.Common().StaticCallee()
 			return f != nil && f.String() == "(*math/big.Int).IsUint64"
 		}}
-		v = an.Guarded(c.P, fn, []*an.Guard{neg, isU64}, isBigShift, false)
+		v = an.Guarded(c.P, fn, append(neg, isU64), isBigShift, false)
 		c.Check(v.Holds && v.GuardSites == 2, "guard|IntValue."+n+"|negative-count", "a negative shift count faults", c.P.Rel(fn.Pos()), v.Witness)
 	}
 	// (4) writers of the bigint field
